@@ -317,10 +317,27 @@ Definition precheck (r : routine) (n : nat) (R0 : mat Z) : bool :=
     end
   else true.
 
-(* randmio_* / latmio_*: R, itr, D (None -> ring distance), stream *)
+(* what a call can end in.  The code has four distinguishable endings and so has the model:
+   Rejected  — BCTParamError raised by the input checks (precheck);
+   Raises    — another exception: ZeroDivisionError of `n * k / (n * (n - 1))` when n < 2, ValueError of
+               `rng.randint(0, size=2)` in randomize_graph_partial_und without any edge;
+   StreamEnd — the recorded stream does not fit or is used up: the permutation draw is missing, or a loop wants more
+               draws than there are (this is also the only way the model can follow a loop of the code that never
+               ends, e.g. a single edge and itr > 0: `while e1 == e2` redraws for ever);
+   Done res  — the call returns. *)
+Inductive outcome :=
+| Rejected
+| Raises
+| StreamEnd
+| Done (res : result).
+
+Definition outcome_result (o : outcome) : option result := match o with Done r => Some r | _ => None end.
+
+(* randmio_* / latmio_*: R, itr, D (None -> ring distance), stream.
+   No edge (k = 0): `itr *= k` makes the loop body dead and the copy is returned, whatever itr;  itr = 0: likewise. *)
 Definition run_routine (r : routine) (n : nat) (R0 : mat Z) (itr : nat) (D : option (mat Z)) (s0 : stream)
-  : option result :=
-  if negb (precheck r n R0) then None else
+  : outcome :=
+  if negb (precheck r n R0) then Rejected else
   let pre :=
     if is_latt r then
       match s0 with
@@ -329,29 +346,30 @@ Definition run_routine (r : routine) (n : nat) (R0 : mat Z) (itr : nat) (D : opt
       end
     else Some (seq 0 n, R0, s0) in
   match pre with
-  | None => None
+  | None => StreamEnd
   | Some (p, R1, s1) =>
     let Dm := match D with Some D' => D' | None => ring_dist n end in
     let src := if is_und r then ELtril else ELall in
     let '(st0, k) := init_state src n R1 in
-    if Nat.ltb k 2 then None else
+    if Nat.ltb n 2 then Raises else
     let ma := max_attempts (is_latt r && is_und r) n k in
     match iterate (variant_of r n Dm) k (S ma) (itr * k) st0 s1 [] with
-    | None => None
+    | None => StreamEnd
     | Some (st, s2, tr) =>
       let Rf := sR st in
       let out := if is_latt r then (fun x y => Rf (index_of x p) (index_of y p)) else Rf in
-      Some (mkres out Rf p (length tr) tr (length s2))
+      Done (mkres out Rf p (length tr) tr (length s2))
     end
   end.
 
-(* randomize_graph_partial_und(A, B, maxswap) *)
-Definition run_partial_und (n : nat) (A B : mat Z) (maxswap : nat) (s0 : stream) : option result :=
+(* randomize_graph_partial_und(A, B, maxswap): maxswap = 0 returns the copy; otherwise the first statement of the loop
+   is `e1, e2 = rng.randint(m, size=(2,))`, a ValueError when there is no edge *)
+Definition run_partial_und (n : nat) (A B : mat Z) (maxswap : nat) (s0 : stream) : outcome :=
   let '(st0, k) := init_state ELtriu1 n A in
-  if Nat.ltb k 2 then None else
+  if (Nat.eqb k 0 && negb (Nat.eqb maxswap 0))%bool then Raises else
   match until_swaps (mkvar true (mask_guard B)) k (length s0) maxswap st0 s0 [] with
-  | None => None
-  | Some (st, s2, tr) => Some (mkres (sR st) (sR st) (seq 0 n) (length tr) tr (length s2))
+  | None => StreamEnd
+  | Some (st, s2, tr) => Done (mkres (sR st) (sR st) (seq 0 n) (length tr) tr (length s2))
   end.
 
 (* ---------- executable interface ---------- *)
@@ -377,16 +395,20 @@ Definition run_rewire (rt : nat) (rows : list (list Z)) (itr : nat) (D : option 
   let R0 := of_rows 0 rows in
   let k := count_edges (if is_und r then ELtril else ELall) n R0 in
   match run_routine r n R0 itr (match D with Some d => Some (of_rows 0 d) | None => None end) s with
-  | None => None
-  | Some res => Some (out_result n k res)
+  | Done res => (O, Some (out_result n k res))
+  | Rejected => (1%nat, None)
+  | Raises => (2%nat, None)
+  | StreamEnd => (3%nat, None)
   end.
 
 Definition run_partial (rows mask : list (list Z)) (maxswap : nat) (s : stream) :=
   let n := length rows in
   let A := of_rows 0 rows in
   match run_partial_und n A (of_rows 0 mask) maxswap s with
-  | None => None
-  | Some res => Some (out_result n (count_edges ELtriu1 n A) res)
+  | Done res => (O, Some (out_result n (count_edges ELtriu1 n A) res))
+  | Rejected => (1%nat, None)
+  | Raises => (2%nat, None)
+  | StreamEnd => (3%nat, None)
   end.
 
 (* ---------- randomizer_bin_und: the swap of edges a-b, c-d into a-c, b-d (writes in source order) ---------- *)
@@ -406,3 +428,7 @@ Definition run_rbu_swap (rows : list (list Z)) (a b c d : nat) : bool * list (li
   let n := length rows in
   let R := of_rows 0 rows in
   (rbu_admissible R a b c d, to_rows n n (rbu_swap R a b c d)).
+
+(* the BCTParamError checks alone (compared with the implementation's raise/no-raise on valid AND malformed input) *)
+Definition run_precheck (rt : nat) (rows : list (list Z)) : bool :=
+  precheck (routine_of_nat rt) (length rows) (of_rows 0 rows).
